@@ -130,9 +130,10 @@ def rand_expr(rng, size, depth, vars8, flags, temps=()):
     if r < 0.55:
         op = rng.choice(ARITH)
         a = rand_expr(rng, size, depth - 1, vars8, flags, temps)
-        if rng.random() < 0.2:
+        hard = op in ("IntMult", "IntDiv", "IntRem", "IntSDiv", "IntSRem")
+        if rng.random() < 0.2 and not hard:
             b = a
-        elif rng.random() < 0.45:
+        elif rng.random() < (0.9 if hard else 0.45):
             b = C(rng.choice(INTERESTING), size)
         else:
             b = rand_expr(rng, size, depth - 1, vars8, flags, temps)
